@@ -653,7 +653,7 @@ def batch(ctx, n_cases, with_model=True, skip_corners=False):
                         lambda j: store['impl'][j], chunk=250)
 
 
-def run(ctx):
+def _run_vertical(ctx):
     batch(ctx, ctx.n(300, 6000))
 
 
@@ -697,3 +697,11 @@ def shrink(ctx, failure):
         sc = dict(sc, waits=sc['waits'][:-1])
     why = monitor(sc, schedule, run_scenario(sc, schedule, tuple(post)))
     return dict(scenario=sc, schedule=schedule, post=post, why_after_shrinking=why[:3])
+
+
+
+def run(ctx):
+    _run_vertical(ctx)
+    # second, independent tie: task trees with cancels and status probes on the whole-program machine (whole-trace correspondence)
+    from harness import machine_prop
+    machine_prop.run(ctx, [('trees', 120, 3000, {})], [])
